@@ -2620,9 +2620,10 @@ class PE:
             return True
         if isinstance(s, ast.Assert):
             c = truth_form(self.ev(s.test, env))
+            st_ = self.roots_state(env)        # a failing assert leaves the object as it is at this point
             for c1 in (c[1] if c[0] == 'and' else (c,)):
                 if truth(c1) is not True:
-                    effects.append(('assert', c1))
+                    effects.append(('assert', c1, st_) if st_ else ('assert', c1))
             return False
         if isinstance(s, ast.Pass):
             return False
@@ -3391,6 +3392,8 @@ class PE:
                 # the object must not be handed to anything that could update it: phi may only occur under attr / its own obj wrappers
                 bare = False
                 for x in walk(pool):
+                    if x[0] == 'root' and len(x) == 3 and x[2] == phi:
+                        continue         # a state snapshot naming the (so far unchanged) object: nothing is done to it
                     if x[0] in ('call', 'mut', 'do', 'yield', 'tuple', 'list', 'idx', 'upd', 'exit', 'cmp', 'root') and phi in x[1:] :
                         bare = True
                         break
